@@ -6,6 +6,7 @@ pub mod bddref;
 pub mod cli;
 pub mod common;
 pub mod engine;
+pub mod fuzzdec;
 pub mod gen;
 pub mod model;
 pub mod ops;
